@@ -50,6 +50,19 @@ SCENARIOS = [
     ("incomplete-with-duplicates", ["A", "B", "C", "D"], {"A": 0, "B": 1, "C": 2, "D": 3},
      [[{"D"}], [{"B"}, {"A"}], [{"D"}], [{"C", "A"}, {"B"}, {"D"}]], False),
 ]
+
+
+def _long_scenario(n: int = 1003):
+    """Two permutations of n elements that differ only in the middle (plus a duplicate of the first): every text
+    rendering of a long array that drops its middle makes them look equal."""
+    names = [f"E{i:04d}" for i in range(n)]
+    first = [{x} for x in names]
+    second = [{x} for x in names]
+    second[n // 2], second[n // 2 + 1] = second[n // 2 + 1], second[n // 2]
+    return ("long-rankings-differing-in-the-middle", names, {x: i for i, x in enumerate(names)},
+            [first, second, [set(b) for b in first]], True)
+
+
 STARTERS = [
     [[{"C"}, {"B"}, {"A"}], [{"B", "A"}, {"C"}]],
     [[{"D"}, {"C", "B"}, {"A"}]],
@@ -70,7 +83,7 @@ def run(ctx) -> Result:
     res.rule("N4", "reported score = minimum final score; exactly the rows reaching it are returned", 3)
     res.rule("N5", "only strictly improving moves are applied and their deltas are summed", 3)
 
-    for label, elems, mapping, rankings, complete in SCENARIOS:
+    for label, elems, mapping, rankings, complete in SCENARIOS + [_long_scenario()]:
         sc = bioc.Scenario(elems, mapping, rankings, complete)
         ret, calls, ds = bioc.eval_departure(proj, sc, [])
         rows = _rows(ret)
@@ -83,15 +96,23 @@ def run(ctx) -> Result:
         tied = [0] * len(elems)
         # N1: every row must be the id-correct encoding of some unified ranking / the all-tied row
         foreign = [r for r in rows if r not in exp and r != tied]
+        long_ = len(elems) > 50
+
+        def short(x):
+            return f"<{len(x)} rows of {len(elems)} ids>" if long_ else repr(x)
         res.check(not foreign and bool(rows), "N1", f"_departure_rankings:no-starters:{label}", dep.loc(),
                   ok_detail=f"{len(rows)} rows, all in the caller's id space",
-                  bad_detail=f"caller ids {mapping}: unified rankings {uni} give rows {rows}; rows {foreign} are not the "
-                             f"bucket ids of any unified ranking under the caller's map (expected {exp})")
+                  bad_detail=f"caller ids {short(mapping)}: unified rankings {short(uni)} give rows {short(rows)}; rows "
+                             f"{short(foreign)} are not the bucket ids of any unified ranking under the caller's map "
+                             f"(expected {short(exp)})")
         # N3: the set of rows
         good = sorted(rows) == sorted(exp + [tied]) if tied not in exp else sorted(rows) in (sorted(exp), sorted(exp + [tied]))
         res.check(good, "N3", f"_departure_rankings:start-set:{label}", dep.loc(),
                   ok_detail="every distinct unified ranking once + the all-tied row",
-                  bad_detail=f"rows {rows}, expected each of {exp} once and the all-tied row")
+                  bad_detail=(f"rows {rows}, expected each of {exp} once and the all-tied row" if not long_ else
+                              f"{len(rows)} departure rows for {len(elems)} elements; the {len(exp)} distinct input rankings "
+                              f"(they differ at positions {len(elems) // 2}, {len(elems) // 2 + 1} only) and the all-tied row "
+                              f"are expected: {len([r for r in exp if r not in rows])} distinct input ranking(s) missing"))
     # starters
     for k, cons in enumerate(STARTERS):
         label, elems, mapping, rankings, complete = SCENARIOS[k if k < 2 else 0]
